@@ -350,11 +350,11 @@ def run(tier, seed):
         },
         "assumptions": C16.assumptions, "wall_s": round(wall_s, 2), "violations": len(reported),
     }
-    os.makedirs(os.path.join(check.VERIF, "evidence"), exist_ok=True)
-    tmp = os.path.join(check.VERIF, "evidence", ".C16.json.tmp")
+    os.makedirs(check.evidence_dir(), exist_ok=True)
+    tmp = os.path.join(check.evidence_dir(), ".C16.json.tmp")
     with open(tmp, "w") as f:
         json.dump(ev, f, indent=1, default=repr)
-    os.replace(tmp, os.path.join(check.VERIF, "evidence", "C16.json"))
+    os.replace(tmp, os.path.join(check.evidence_dir(), "C16.json"))
     for fid, vs in sorted(attributed.items()):
         print("KNOWN-FINDING: property=C16 %s: %s (%d occurrences this run)" % (fid, known.describe(fid), len(vs)))
     for v, path in reported:
